@@ -1203,7 +1203,9 @@ Section RealignTick.
     2:{ replace (q + W - q) with (nrows g * ncols g) by (unfold W, nwords; lia). now rewrite Z.quot_mul by lia. }
     rewrite !Z.eqb_refl. cbn [negb orb].
     destruct (q =? W) eqn:EqW; [lia|]. cbn [negb]. destruct (q =? 0) eqn:Eq0; [lia|].
-    destruct (fs - q * 4 <=? 0) eqn:Ede; [lia|].
+    replace ((q * 4) mod fs) with (q * 4) by (symmetry; apply Z.mod_small; lia).
+    replace (L - q * 4 - (fs - q * 4)) with (L - fs) by lia.
+    destruct (L - fs <? fs) eqn:Ede; [lia|].
     replace (L - (fs - q * 4) - q * 4) with (L - fs) by lia.
     rewrite zslice_zslice by lia. rewrite zskipn_zslice by lia.
     unfold tick_demux. fold fs. rewrite zlen_zslice by lia.
@@ -1335,6 +1337,18 @@ Lemma realign_witness :
   map is_silent_release (wit_sys wit_cfg3 (wit_ops wit_S3)) = [false; false; true; true] /\
   C04_check wit_cfg3 (combine (wit_ops wit_S3) (wit_sys wit_cfg3 (wit_ops wit_S3))) = false.
 Proof. repeat split; vm_compute; reflexivity. Qed.
+
+(* 20 bytes lost at byte 244 (one word into frame 10, up to the next frame boundary), reads of 240 bytes: the
+   frame start FindFrameBits reports lies 7 words into the second read *)
+Definition wit_S4 : list Z := wit_cut (wit_stream (fun _ _ => false) 30) 244 20.
+Definition tick_kind (t : tick_res) : Z * list Z :=
+  (match t_out t with TSmall => 0 | TGeom => 1 | TBuf m => if bm_drop m then 3 else 2 | TPanic PDropFromEnd => 4 | TPanic _ => 5 end,
+   t_rels t).
+
+Lemma reader_panic_refuted_pre_fix_proof :
+  tick_kind (reader_tick_old wit_g [] (zslice wit_S4 240 240) 2) = (4, [28]) /\
+  tick_kind (reader_tick wit_g [] (zslice wit_S4 240 240) 2) = (3, [28; 192]).
+Proof. split; vm_compute; reflexivity. Qed.
 
 Lemma realign_after_gap_refuted_proof : ~ realign_after_gap_statement wit_sys.
 Proof.
